@@ -1,6 +1,7 @@
 package main
 
 import (
+	"context"
 	"fmt"
 	"io"
 	"mime"
@@ -240,6 +241,17 @@ func (st *runState) observe(c fiber.Ctx, where string, herr error) {
 		o["locals.session"] = fmt.Sprintf("%v", c.Locals("session"))
 		o["locals.typed"] = fmt.Sprintf("%v", c.Locals(ctxKey{}))
 	}
+	// the user context (after the locals: Context() itself stores the default context as a user value)
+	{
+		uc := c.Context()
+		o["uctx.context"] = fmt.Sprintf("background=%v value=%v", uc == context.Background(), uc.Value(userCtxKey{}))
+	}
+	// the Req() / Res() views of the same context
+	{
+		rq, rs := c.Req(), c.Res()
+		o["api.req"] = fmt.Sprintf("path=%q a=%q x-name=%q route=%q", rq.Path(), rq.Params("a"), rq.Get("X-Name"), rq.Route().Path)
+		o["api.res"] = fmt.Sprintf("x-history=%q x-res=%q x-mw=%q", rs.Get("X-History"), rs.Get("X-Res"), rs.Get("X-Mw"))
+	}
 	// flash messages and old input
 	{
 		rd := c.Redirect()
@@ -389,7 +401,7 @@ func buildApp(cfg int, st *runState) *fiber.App {
 			return c.SendString("probe:" + name)
 		}
 	}
-	app.Get("/p1/:a", probe("p1"))
+	app.Get("/p1/:a", probe("p1")).Name("named-p1") // the name is used by Redirect().Route / GetRouteURL of the wide family
 	app.Get("/p2/:a/:b", probe("p2"))
 	app.Get("/p3/:a/:b/:c", probe("p3"))
 	app.Get("/w/*", probe("w"))
@@ -503,6 +515,11 @@ func buildApp(cfg int, st *runState) *fiber.App {
 			st.observe(c, "handler:"+name, nil)
 			return c.SendFile(file, cfg)
 		})
+	}
+
+	// --- wide family (wide.go): handler behaviours and observers used in histories of one request ---
+	if wideApp {
+		registerWide(app, st)
 	}
 
 	app.Handler() // startup processing (route tree) before Server() is used directly
